@@ -424,6 +424,26 @@ func (c19) Run(ctx *Ctx, ci interface{}) (o Outcome) {
 				break
 			}
 			_ = t.bag.Identical(u.bag)
+			if op.Flag && n >= 2 {
+				// the same question asked of (and about) a set in which two rows carry one name - reachable through an
+				// in-place rename only; it stays outside the pool, the other operations are not defined on it
+				if d, err := t.bag.CloneSeqBag(); err == nil {
+					from, _ := d.GetSequenceNameById(op.I % n)
+					to, _ := d.GetSequenceNameById(op.J % n)
+					if from != to {
+						d.Rename(map[string]string{from: to})
+						before := snapshotAlign(d)
+						_ = d.Identical(u.bag)
+						_ = u.bag.Identical(d)
+						_ = d.Identical(d)
+						if after := snapshotAlign(d); after != before {
+							fail("input-modified:identical", "Identical changed a sequence set in which two rows have one name (it was asked of it, or about it):\nbefore:\n%s\nafter:\n%s", before, after)
+							return
+						}
+						o.Add("probe_identical_with_two_rows_of_one_name", 1)
+					}
+				}
+			}
 		case "distmatrix":
 			isQuery = true
 			if !isAl || n < 2 || al.Alphabet() != align.NUCLEOTIDS {
